@@ -52,19 +52,31 @@ def run_job(job):
             kind, threads, fpg, experiments = draw_config(sched_rng, g, job["tier"])
             strategy = sched_rng.choice(STRATEGIES)
             pseed = sched_rng.getrandbits(48)
+            verify_alloc = sched_rng.random() < 0.1
             if only is not None and s != only:
                 continue
             plan = Plan(pseed, strategy, log_level=1)
+            if job.get("decisions") is not None:
+                dpath = os.path.join(workdir, f"decisions_in_{s}.txt")
+                with open(dpath, "w") as fh:
+                    fh.write("\n".join(str(x) for x in job["decisions"]) + "\n")
+                plan = Plan(pseed, "replay", log_level=1, decisions_in=dpath)
             out = os.path.join(workdir, f"out{s}")
             argv = gen_graph.link_args(g, objs, out, kind=kind, gc=True)
             argv += [f"--threads={threads}", "--no-fork"]
             if experiments:
                 argv.append(f"--wild-experiments={experiments}")
             env = {"WILD_FILES_PER_GROUP": str(fpg) if fpg else None}
-            if sched_rng.random() < 0.1:
+            if verify_alloc:
                 env["WILD_VERIFY_ALLOCATIONS"] = "1"
             r = sim_link(argv, workdir, plan, tag=f"s{s}", env_extra=env)
             check_sim_health(r, f"graph job {index} schedule {s}")
+            if job.get("want_decisions"):
+                try:
+                    with open(r.decisions_path) as fh:
+                        res["decisions"] = [int(x) for x in fh.read().split()]
+                except FileNotFoundError:
+                    res["decisions"] = []
             res["runs"] += 1
             res.setdefault("trace", []).append((s, r.status, r.steps, r.trace_hash))
             res["steps"] += r.steps
